@@ -46,7 +46,9 @@ class AST:
         variable_definitions = [[Operator.DEFINE, S(key[0]), key[1]] for key in variables.items()]
         begin_statements = self.begin
         wal = [[Operator.DO, *variable_definitions, *begin_statements]]
-        wal.append(main_loop)
+        # without statements there is nothing to scan for, whenever needs a body
+        if self.statements:
+            wal.append(main_loop)
         wal += self.end
 
         symbols = []
